@@ -116,6 +116,17 @@ def plant(d, r, kind, enc, comment=None):
             ln = d.add("${ fn(1," + nl + "    2) | fmt(" + nl + "    _('%s')," % m + nl + nl + "    _('%s')) }" % m2 + nl)
             exp(ln + 2, "_", m, "filter-arg")
             exp(ln + 4, "_", m2, "filter-arg")
+    elif kind == "filter-arg-after-linebreak":
+        # the filter list starts on a line after the expression (which may end in a comment)
+        m2 = d.msg(w)
+        if r.random() < 0.5:
+            ln = d.add("${value" + nl + "    | fmt(_('%s'), _('%s'))}" % (m, m2) + nl)
+            exp(ln + 1, "_", m, "filter-arg")
+            exp(ln + 1, "_", m2, "filter-arg")
+        else:
+            ln = d.add("${fn(1, 2)  # a remark" + nl + nl + "    | fmt(_('%s'), _('%s'))}" % (m, m2) + nl)
+            exp(ln + 2, "_", m, "filter-arg")
+            exp(ln + 2, "_", m2, "filter-arg")
     elif kind == "control-if":
         ln = d.add("% if _('" + m + "'):" + nl + "x" + nl + "% endif" + nl)
         exp(ln, "_", m)
@@ -232,7 +243,7 @@ def decoy(d, r, kind):
         d.add("%% if _('" + t + "'):" + nl)
 
 
-PLANTS = ["expr", "expr-gettext", "expr-multiline", "expr-two", "filter-arg", "filter-arg-multiline", "signature-multiline", "control-if", "control-elif", "control-for", "control-continued", "def-signature-decorated", "code-block", "module-block",
+PLANTS = ["expr", "expr-gettext", "expr-multiline", "expr-two", "filter-arg", "filter-arg-multiline", "filter-arg-after-linebreak", "signature-multiline", "control-if", "control-elif", "control-for", "control-continued", "def-signature-decorated", "code-block", "module-block",
           "def-signature", "block-args", "call-expr", "nsdef-attr", "in-def-body"]
 DECOYS = ["text", "text-tag", "doc", "comment", "escaped-percent"]
 
